@@ -11,8 +11,14 @@ PLANS = {
     # tier -> [(profile, MaxOps)]
     # (profile, MaxOps) exhaustive; (profile, MaxOps, n) = n simulated behaviours (random deep filters)
     "quick": [("logic", 2), ("arith", 1), ("strings", 1), ("misc", 1), ("math", 1), ("temporal", 1), ("long", 0), ("logic", 7, 1200), ("arith", 5, 150), ("strings", 4, 150)],
-    "thorough": [("logic", 3), ("arith", 2), ("strings", 2), ("misc", 2), ("math", 2), ("temporal", 2), ("long", 2), ("logic", 8, 6000), ("arith", 6, 3000),
-                 ("strings", 5, 3000), ("misc", 4, 3000)],
+    # measured sizes (sqlite): logic 3 = 412 k filters, arith 2 = 110 k, strings 2 = 114 k, math 2 = 95 k; misc 2 and temporal 2
+    # exceed 1.4 M and are sampled by simulation instead
+    "thorough": [("logic", 3), ("arith", 2), ("strings", 2), ("misc", 1), ("math", 2), ("temporal", 1), ("long", 1),
+                 ("logic", 8, 6000), ("arith", 6, 3000), ("strings", 5, 3000), ("misc", 4, 6000), ("temporal", 4, 6000)],
+    # the ORM round trip costs 2-5 ms per query: smaller exhaustive bounds, same simulated depth
+    "quick-orm": [("logic", 1), ("arith", 1), ("strings", 1), ("misc", 1), ("math", 1), ("temporal", 1), ("long", 0), ("logic", 7, 700), ("arith", 5, 150), ("strings", 4, 150)],
+    "thorough-orm": [("logic", 2), ("arith", 1), ("strings", 1), ("misc", 1), ("math", 1), ("temporal", 1), ("long", 1),
+                     ("logic", 8, 6000), ("arith", 6, 3000), ("strings", 5, 3000), ("misc", 4, 3000), ("temporal", 3, 3000), ("math", 3, 1500)],
 }
 
 
@@ -120,7 +126,7 @@ _RUNNER = None
 
 
 def _weight(plan):
-    return {"temporal": 9, "strings": 7, "logic": 6, "misc": 5, "arith": 4, "long": 3, "math": 1}.get(plan[0], 1) + (3 if len(plan) == 3 else 0)
+    return {"temporal": 9, "strings": 7, "logic": 6, "misc": 5, "arith": 4, "long": 3, "math": 1}.get(plan[0], 1) * (1 + plan[1]) + (3 if len(plan) == 3 else 0)
 
 
 def _plan_worker(i):
@@ -140,15 +146,15 @@ def _plan_worker(i):
 def run_plan(ctx, backend, plan, runner, seen):
     prof, mo = plan[0], plan[1]
     quick = ctx.tier == "quick"
-    workers = 6 if quick else 16
+    workers = 6 if quick else 8
     consts = {"MaxOps": mo, "Profile": '"%s"' % prof, "Backend": '"%s"' % backend}
     if len(plan) == 3:
         res = tlc.run("MC_Sem", constants=consts, simulate=max(1, plan[2] // workers), depth=40, seed=ctx.seed + 101,
-                      keep_lines=lambda r: r.get("k") in ("case", "domain"), timeout=7000, heap="12g" if not quick else "4g",
+                      keep_lines=lambda r: r.get("k") in ("case", "domain"), timeout=7000, heap="8g" if not quick else "4g",
                       check_count=False, workers=workers)
     else:
         res = tlc.run("MC_Sem", constants=consts, keep_lines=lambda r: r.get("k") in ("case", "domain"), timeout=7000,
-                      heap="12g" if not quick else "4g", workers=workers)
+                      heap="8g" if not quick else "4g", workers=workers)
     label = "%s%d%s" % (prof, mo, "-sim" if len(plan) == 3 else "")
     ctx.add_tlc(res)
     dom = [r for r in res.records if r["k"] == "domain"]
@@ -182,28 +188,19 @@ def run(ctx, backend):
     ctx.assumptions = ["comparisons with a NULL operand are unknown (SQL-style three-valued logic, as the property states)",
                        "ASCII lower-case string domain (engine LOWER/LIKE case folding is out of scope)",
                        "divisors are non-zero literals; substring indexes are non-negative literals"]
-    plans = PLANS[ctx.tier]
-    if ctx.tier == "quick" and backend != "sqlite":
-        # the ORM round trip costs ~2 ms per query: smaller exhaustive bound, same simulated depth
-        plans = [("logic", 1), ("arith", 1), ("strings", 1), ("misc", 1), ("math", 1), ("temporal", 1), ("long", 0), ("logic", 7, 700), ("arith", 5, 150), ("strings", 4, 150)]
-    if ctx.tier == "quick":
-        # the plans are independent: four forked workers, each with its own database fixture, take them in turn
-        import multiprocessing as mp
-        global _JOB
-        _JOB = (ctx, backend, plans)
-        order = sorted(range(len(plans)), key=lambda i: -_weight(plans[i]))
-        with mp.get_context("fork").Pool(4) as pool:
-            for part in pool.imap_unordered(_plan_worker, order):
-                ctx.states += part.pop("states")
-                ctx.transitions += part.pop("transitions")
-                ctx.tlc_cmds += part.pop("tlc_cmds")
-                ctx.merge(part)
-        _JOB = None
-    else:
-        runner = Runner(ctx, backend)
-        seen = set()
-        for plan in plans:
-            run_plan(ctx, backend, plan, runner, seen)
+    plans = PLANS[ctx.tier if backend == "sqlite" else ctx.tier + "-orm"]
+    # the plans are independent: four forked workers, each with its own database fixture, take them in turn
+    import multiprocessing as mp
+    global _JOB
+    _JOB = (ctx, backend, plans)
+    order = sorted(range(len(plans)), key=lambda i: -_weight(plans[i]))
+    with mp.get_context("fork").Pool(4) as pool:
+        for part in pool.imap_unordered(_plan_worker, order):
+            ctx.states += part.pop("states")
+            ctx.transitions += part.pop("transitions")
+            ctx.tlc_cmds += part.pop("tlc_cmds")
+            ctx.merge(part)
+    _JOB = None
     ctx.exhaustive = False
 
 
